@@ -6,6 +6,12 @@
 //!   ops_union      A B      => obs(A) obs(B) obs(R) unchanged comm idemA idemB
 //!   ops_union3     A B C    => obs(A) obs(B) obs(C) obs((A u B) u C) assoc
 //!   ops_filter     D pred   => obs(D) obs(R) unchanged
+//!   ops_complement_dg D     => obs(D) order nverts size digest loops maxend unchanged invol
+//!
+//! `ops_complement_dg` is `ops_complement` for LARGE `AdjacencyList` operands (orders 256..4097, far
+//! above `256 * t`): the dense result is not printed but summarised — `order()`, number of
+//! `vertices()`, number of arcs, `digest` = sum of `u * 1000003 + v` over the arcs, number of
+//! self-loops, largest arc endpoint (`none` without arcs).
 //!
 //! `obs` = `[order [vertices] [arcs]]` (`graphs::observe`; weighted arcs as `[u v w]`),
 //! `unchanged` = operands `==` their pre-call clones, the other flags are the algebraic
@@ -154,6 +160,41 @@ pub fn eval(op: &str, args: &[V]) -> Option<Vec<V>> {
                 _ => None,
             }
         }
+        "ops_complement_dg" => {
+            let [d] = args else { return None };
+            let d = Desc::parse(d)?;
+            if d.repr != "al" {
+                return None;
+            }
+            let g = d.build_al();
+            let before = g.clone();
+            let r = g.complement();
+            let unchanged = g == before;
+            let invol = r.complement() == g;
+            let mut size: i128 = 0;
+            let mut digest: i128 = 0;
+            let mut loops: i128 = 0;
+            let mut maxend: Option<usize> = None;
+            for (u, v) in r.arcs() {
+                size += 1;
+                digest += (u as i128) * 1_000_003 + v as i128;
+                if u == v {
+                    loops += 1;
+                }
+                maxend = Some(maxend.map_or(u.max(v), |m| m.max(u).max(v)));
+            }
+            Some(vec![
+                observe(&g),
+                V::u(r.order()),
+                V::u(r.vertices().count()),
+                V::I(size),
+                V::I(digest),
+                V::I(loops),
+                V::opt_u(maxend),
+                V::bool(unchanged),
+                V::bool(invol),
+            ])
+        }
         "ops_converse" => {
             let [d] = args else { return None };
             let d = Desc::parse(d)?;
@@ -281,12 +322,20 @@ fn gen_any(rng: &mut Rng, repr: &str) -> Desc {
 }
 
 fn gen_pred(rng: &mut Rng, d: &Desc, kind: usize) -> V {
-    let hi = d.verts.last().copied().unwrap_or(0) + 1;
+    // thresholds are vertex ids themselves (or their saturated successor): ids may be usize::MAX
+    let pick = |rng: &mut Rng| -> usize {
+        if d.verts.is_empty() {
+            0
+        } else {
+            let x = d.verts[rng.below(d.verts.len())];
+            if rng.chance(1, 3) { x.saturating_add(1) } else { x }
+        }
+    };
     match kind {
         0 => V::atom("none"),
         1 => V::atom("all"),
-        2 => V::L(vec![V::atom("ge"), V::u(rng.below(hi + 1))]),
-        3 => V::L(vec![V::atom("lt"), V::u(rng.below(hi + 1))]),
+        2 => V::L(vec![V::atom("ge"), V::u(pick(rng))]),
+        3 => V::L(vec![V::atom("lt"), V::u(pick(rng))]),
         4 => {
             let m = 2 + rng.below(3);
             V::L(vec![V::atom("mod"), V::u(m), V::u(rng.below(m))])
@@ -294,9 +343,188 @@ fn gen_pred(rng: &mut Rng, d: &Desc, kind: usize) -> V {
         _ => {
             let mut keep: Vec<usize> = d.verts.iter().copied().filter(|_| rng.chance(1, 2)).collect();
             if rng.chance(1, 4) {
-                keep.push(hi + 3); // an id that is not a vertex
+                // an id that is (usually) not a vertex
+                keep.push(d.verts.last().copied().unwrap_or(0) / 2 + 13);
             }
             V::L(vec![V::atom("in"), V::us(keep)])
+        }
+    }
+}
+
+/// Extreme vertex ids for `AdjacencyMap` (sentinel values of "optimised" code).
+const XIDS: [usize; 9] = [
+    0,
+    1,
+    7,
+    usize::MAX / 2 - 1,
+    usize::MAX / 2,
+    usize::MAX / 2 + 1,
+    usize::MAX - 2,
+    usize::MAX - 1,
+    usize::MAX,
+];
+
+/// A small map whose key set is drawn from `XIDS`; `usize::MAX` is a vertex 3 times out of 4.
+fn gen_am_extreme(rng: &mut Rng) -> Desc {
+    let n = 1 + rng.below(6);
+    let mut ids: Vec<usize> = XIDS[..XIDS.len() - 1].to_vec();
+    rng.shuffle(&mut ids);
+    ids.truncate(n);
+    if rng.chance(3, 4) {
+        ids[0] = usize::MAX;
+    }
+    ids.sort_unstable();
+    ids.dedup();
+    let c = desc_of_order(rng, "am", ids.len());
+    relabel(&c, &ids)
+}
+
+/// `k` distinct ids strictly between `lo` and `hi`.
+fn interior(rng: &mut Rng, lo: usize, hi: usize, k: usize) -> Vec<usize> {
+    let mut all: Vec<usize> = (lo + 1..hi).collect();
+    rng.shuffle(&mut all);
+    all.truncate(k);
+    all
+}
+
+/// STRUCTURED COINCIDENCES between the key sets of two maps (what a "the operands line up" shortcut
+/// would test instead of the key sets themselves):
+/// 0 same size, same min, same max, different interior   1 same size + min, other max
+/// 2 same size + max, other min   3 one shifted by a constant   4 keys of one ⊂ keys of the other
+/// 5 same min + max, different size   6 same key set   7 interleaved (evens / odds)
+fn gen_coincident_pair(rng: &mut Rng, kind: usize) -> (Desc, Desc) {
+    let n = if rng.chance(1, 6) { 9 + rng.below(30) } else { 3 + rng.below(7) };
+    let lo = [0usize, 0, 1, 5, 64][rng.below(5)];
+    let hi = lo + 2 * n + 2 + rng.below(n + 3);
+    let mut ka: Vec<usize> = interior(rng, lo, hi, n - 2);
+    ka.push(lo);
+    ka.push(hi);
+    ka.sort_unstable();
+    let kb: Vec<usize> = match kind % 8 {
+        0 => {
+            // same size / min / max, at least one interior id different
+            let mut kb;
+            loop {
+                kb = interior(rng, lo, hi, n - 2);
+                kb.push(lo);
+                kb.push(hi);
+                kb.sort_unstable();
+                if kb != ka {
+                    break;
+                }
+            }
+            kb
+        }
+        1 => {
+            let mut kb = interior(rng, lo, hi, n - 2);
+            kb.push(lo);
+            kb.push(hi + 1 + rng.below(3));
+            kb.sort_unstable();
+            kb
+        }
+        2 => {
+            let mut kb = interior(rng, lo + 1, hi, n - 2);
+            kb.push(lo + 1);
+            kb.push(hi);
+            kb.sort_unstable();
+            kb
+        }
+        3 => {
+            let c = [1usize, 2, n, hi + 1, 1000][rng.below(5)];
+            ka.iter().map(|&x| x + c).collect()
+        }
+        4 => {
+            let mut kb: Vec<usize> = ka.iter().copied().filter(|_| rng.chance(1, 2)).collect();
+            if kb.is_empty() {
+                kb.push(ka[rng.below(ka.len())]);
+            }
+            kb
+        }
+        5 => {
+            let m = if n > 3 && rng.chance(1, 2) { n - 3 } else { n - 1 };
+            let mut kb = interior(rng, lo, hi, m);
+            kb.push(lo);
+            kb.push(hi);
+            kb.sort_unstable();
+            kb
+        }
+        6 => ka.clone(),
+        _ => {
+            let off = 1 - lo % 2;
+            ka = (0..n).map(|i| 2 * i + lo % 2).collect();
+            (0..n).map(|i| 2 * i + off).collect()
+        }
+    };
+    let a = relabel(&desc_of_order(rng, "am", ka.len()), &ka);
+    let b = relabel(&desc_of_order(rng, "am", kb.len()), &kb);
+    if rng.chance(1, 2) { (a, b) } else { (b, a) }
+}
+
+/// Sparse `AdjacencyList` description of exactly `n` vertices with about `m` arcs.
+fn sparse_al(rng: &mut Rng, n: usize, m: usize) -> Desc {
+    let mut set: BTreeSet<(usize, usize)> = BTreeSet::new();
+    for _ in 0..m {
+        let u = rng.below(n);
+        let v = rng.below(n);
+        if u != v {
+            let _ = set.insert((u, v));
+        }
+    }
+    // the last rows are the ones a short chunking drops: give them arcs
+    if n >= 2 {
+        let _ = set.insert((n - 1, 0));
+        let _ = set.insert((0, n - 1));
+    }
+    let mut arcs: Vec<(usize, usize)> = set.into_iter().collect();
+    rng.shuffle(&mut arcs);
+    mk("al", n, arcs)
+}
+
+/// The out-of-distribution stream: large orders for the threaded operations (thresholds like
+/// `256 * t`), extreme ids, structured key coincidences.  Most promising first, ~10 s per mask.
+fn gen_stress(rng: &mut Rng, emit: &mut dyn FnMut(String)) {
+    // large AdjacencyList orders: 2 * 256 + 1, 3 * 256 + 1 / + 2, …, not multiples of small t
+    for &n in &[513usize, 769, 770, 1000, 1099, 257, 511] {
+        let d = sparse_al(rng, n, 10);
+        emit(format!("ops_complement_dg {}", d.to_v()));
+        let m = n - rng.below(3);
+        let e = sparse_al(rng, m, 10);
+        emit(format!("ops_union {} {}", d.to_v(), e.to_v()));
+    }
+    // one order above 256 * 16 (4097 = 17 * 241: not a multiple of any t in 2..=16)
+    emit(format!("ops_complement_dg {}", sparse_al(rng, 4097, 4).to_v())); // few arcs: cheap to shrink
+    emit(format!("ops_union {} {}", sparse_al(rng, 4097, 4).to_v(), sparse_al(rng, 4099, 4).to_v()));
+    // map union with many keys (n1 + n2 far above the thread count): same / shifted / unrelated keys
+    for &n in &[300usize, 513, 800] {
+        let a = desc_of_order(rng, "am", 8);
+        let ids_a = sparse_ids(rng, n, 2 * n);
+        let arcs_a: Vec<(usize, usize)> = a.arcs.iter().map(|&(u, v)| (ids_a[u], ids_a[n - 1 - v])).filter(|(u, v)| u != v).collect();
+        let ka = arcs_a.len();
+        let da = Desc { repr: "am".to_string(), verts: ids_a.clone(), arcs: arcs_a, weights: vec![1; ka] };
+        let ids_b = if n % 2 == 0 { ids_a.clone() } else { sparse_ids(rng, n, 2 * n) };
+        let arcs_b: Vec<(usize, usize)> = vec![(ids_b[0], ids_b[n - 1]), (ids_b[n / 2], ids_b[1])];
+        let db = Desc { repr: "am".to_string(), verts: ids_b, arcs: arcs_b, weights: vec![1; 2] };
+        emit(format!("ops_union {} {}", da.to_v(), db.to_v()));
+    }
+    // extreme ids
+    for i in 0..120 {
+        let d = gen_am_extreme(rng);
+        emit(format!("ops_complement {}", d.to_v()));
+        if i % 2 == 0 {
+            emit(format!("ops_converse {}", d.to_v()));
+            let e = gen_am_extreme(rng);
+            emit(format!("ops_union {} {}", d.to_v(), e.to_v()));
+            let p = gen_pred(rng, &d, 2 + i % 4);
+            emit(format!("ops_filter {} {p}", d.to_v()));
+        }
+    }
+    // key coincidences
+    for i in 0..240 {
+        let (a, b) = gen_coincident_pair(rng, if i % 3 == 0 { 0 } else { i });
+        emit(format!("ops_union {} {}", a.to_v(), b.to_v()));
+        if i % 8 == 0 {
+            let (c, _) = gen_coincident_pair(rng, i / 8);
+            emit(format!("ops_union3 {} {} {}", a.to_v(), b.to_v(), c.to_v()));
         }
     }
 }
@@ -344,6 +572,18 @@ fn all_digraphs(n: usize) -> Vec<Vec<(usize, usize)>> {
 }
 
 pub fn gen(rng: &mut Rng, thorough: bool, emit: &mut dyn FnMut(String)) {
+    if crate::stress() {
+        // the search after a broken tie: only the out-of-distribution stream (budget!)
+        gen_stress(rng, emit);
+        return;
+    }
+    // (0) one large AdjacencyList order above 256 * 3 in every run (digest form, cheap)
+    emit(format!("ops_complement_dg {}", sparse_al(rng, 770, 12).to_v()));
+    if thorough {
+        for &n in &[513usize, 1000, 1099] {
+            emit(format!("ops_complement_dg {}", sparse_al(rng, n, n / 8).to_v()));
+        }
+    }
     // (1) exhaustive small scope: every digraph on <= 3 vertices, every representation;
     //     thorough: also every pair of them for union (orders equal and different).
     let small: Vec<(usize, Vec<(usize, usize)>)> =
@@ -389,7 +629,7 @@ pub fn gen(rng: &mut Rng, thorough: bool, emit: &mut dyn FnMut(String)) {
         emit(format!("ops_union {} {}", f.to_v(), c.to_v()));
     }
     // (3) random digraphs / pairs, every representation that implements the operation
-    let rounds = if thorough { 120 } else { 40 };
+    let rounds = if thorough { 70 } else { 40 };
     for round in 0..rounds {
         for (ri, repr) in UNW.into_iter().enumerate() {
             let d = gen_any(rng, repr);
@@ -404,6 +644,27 @@ pub fn gen(rng: &mut Rng, thorough: bool, emit: &mut dyn FnMut(String)) {
                 let c = if repr == "am" && rng.chance(1, 2) { relabel(&desc_of_order(rng, "am", a.order()), &a.verts) } else { c };
                 emit(format!("ops_union3 {} {} {}", a.to_v(), b.to_v(), c.to_v()));
             }
+        }
+        // structured coincidences between the key sets (same size / min / max, shifted, subset, …)
+        for k in [0, 0, 0, 6, 1 + round % 2, 4 + round % 2, 4 + (round + 1) % 2, if round % 2 == 0 { 3 } else { 7 }] {
+            let (a, b) = gen_coincident_pair(rng, k);
+            emit(format!("ops_union {} {}", a.to_v(), b.to_v()));
+        }
+        if round % 2 == 0 {
+            let (a, b) = gen_coincident_pair(rng, 0);
+            let (c, _) = gen_coincident_pair(rng, round / 2);
+            emit(format!("ops_union3 {} {} {}", a.to_v(), b.to_v(), c.to_v()));
+        }
+        // extreme ids (usize::MAX, MAX - 1, MAX / 2, …) in maps
+        let x = gen_am_extreme(rng);
+        emit(format!("ops_complement {}", x.to_v()));
+        emit(format!("ops_filter {} {}", x.to_v(), gen_pred(rng, &x, round % 2)));
+        let y = gen_am_extreme(rng);
+        emit(format!("ops_union {} {}", x.to_v(), y.to_v()));
+        match round % 3 {
+            0 => emit(format!("ops_converse {}", y.to_v())),
+            1 => emit(format!("ops_filter {} {}", y.to_v(), gen_pred(rng, &y, 2 + round % 4))),
+            _ => emit(format!("ops_complement {}", y.to_v())),
         }
         // one more map union with unrelated key sets
         let (a, b) = gen_pair(rng, "am", 4 * round + 1 + 2 * (round % 2));
